@@ -223,7 +223,21 @@ func usage() {
 	os.Exit(2)
 }
 
+// fileCfg: stubs and summaries are scoped to the harness file that declares them.
+type fileCfg struct {
+	stubs  map[string]*ssa.Function
+	always map[string]bool
+	summ   map[string]bool
+	conc   map[string]bool
+}
+
+func (ld *loaded) apply(file string) {
+	fc := ld.cfg[file]
+	ld.sh.Stubs, ld.sh.StubAlways, ld.sh.Summarize, ld.sh.SummarizeConc = fc.stubs, fc.always, fc.summ, fc.conc
+}
+
 type loaded struct {
+	cfg     map[string]*fileCfg
 	sh      *interp.Shared
 	entries map[string]*ssa.Function
 	pkgs    map[string]*ssa.Package
@@ -273,7 +287,7 @@ func load(files []*harnessFile) (*loaded, error) {
 	}
 	prog, pkgs := ssautil.AllPackages(initial, ssa.InstantiateGenerics)
 	sh := interp.NewShared(prog, modulePath)
-	ld := &loaded{sh: sh, entries: map[string]*ssa.Function{}, pkgs: map[string]*ssa.Package{}}
+	ld := &loaded{cfg: map[string]*fileCfg{}, sh: sh, entries: map[string]*ssa.Function{}, pkgs: map[string]*ssa.Package{}}
 	for k, p := range pkgs {
 		if p == nil {
 			return nil, fmt.Errorf("no SSA package for %s", initial[k].PkgPath)
@@ -293,22 +307,24 @@ func load(files []*harnessFile) (*loaded, error) {
 			}
 			ld.entries[e.Name] = fn
 		}
+		fc := &fileCfg{stubs: map[string]*ssa.Function{}, always: map[string]bool{}, summ: map[string]bool{}, conc: map[string]bool{}}
 		for _, sm := range hf.Summ {
-			sh.Summarize[sm] = true
+			fc.summ[sm] = true
 		}
 		for _, sa := range hf.StubAlways {
-			sh.StubAlways[sa] = true
+			fc.always[sa] = true
 		}
 		for _, sm := range hf.SummConc {
-			sh.SummarizeConc[sm] = true
+			fc.conc[sm] = true
 		}
 		for _, st := range hf.Stubs {
 			fn := p.Func(st[1])
 			if fn == nil {
 				return nil, fmt.Errorf("%s: stub function %s not found", hf.Path, st[1])
 			}
-			sh.Stubs[st[0]] = fn
+			fc.stubs[st[0]] = fn
 		}
+		ld.cfg[hf.Path] = fc
 	}
 	ld.loadS = time.Since(t0).Seconds()
 	return ld, nil
@@ -418,6 +434,7 @@ func cmdCheck(args []string) int {
 			if *maxpaths > 0 {
 				cfg.MaxPaths = *maxpaths
 			}
+			ld.apply(e.File)
 			hr := interp.Explore(ld.sh, cfg, ld.entries[e.Name])
 			results = append(results, hr)
 			specs = append(specs, e)
@@ -508,6 +525,7 @@ func cmdCheck(args []string) int {
 					if e.Steps > 0 {
 						cfg.MaxSteps = e.Steps
 					}
+					ld.apply(e.File)
 					obs, viol, note := interp.RunConcrete(ld.sh, cfg, ld.entries[e.Name], interp.RandomInputs(s), true)
 					var eng []string
 					eng = append(eng, obs...)
